@@ -24,6 +24,7 @@ WRONG = {
     ('unsignedLong', 'text'): 'x', ('unsignedLong', 'negative'): '-1', ('unsignedLong', 'toobig'): '18446744073709551616',
     ('duration', 'text'): 'one hour',
 }
+WRONG.update({('duration', 'designator_only'): 'P', ('duration', 'designator_only_neg'): '-P'})
 WRONG.update({('boolean', 'prefix'): 'tru', ('boolean', 'inner'): 'als', ('boolean', 'concat'): 'truefalse', ('boolean', 'digits'): '01'})
 for _t in ('integer', 'nonNegativeInteger', 'positiveInteger', 'unsignedShort', 'unsignedByte', 'unsignedInt', 'unsignedLong'):
     WRONG[(_t, 'multisign')] = '+-12'
